@@ -40,7 +40,11 @@ def memShapeR (exact : Bool) (m : Ty → JsVal → Option Bool)
       | some p => m mb.2.2 p.2
       -- `lenient`: a missing property is read as `undefined` (what the validators do: a required property whose type
       -- admits undefined / null may be absent)
-      | none => some (mb.2.1 || (lenient && (m mb.2.2 .undef == some true || m mb.2.2 .null == some true)))) ms
+      | none =>
+        -- a key every object inherits from Object.prototype is never missing for `input[k]` (the validators read through the
+        -- prototype chain): records have no prototype, the reference does not judge
+        if JsVal.objectProtoFns.contains mb.1 || mb.1 == "__proto__" then none
+        else some (mb.2.1 || (lenient && (m mb.2.2 .undef == some true || m mb.2.2 .null == some true)))) ms
     let others := props.filter fun p => !(ms.any fun mb => mb.1 == p.1)
     let extra := match ix with
       | some (_, tv) => allO (fun (p : String × JsVal) => m tv p.2) others
